@@ -10,6 +10,7 @@ EQUAL the code for the byte-level correspondence (`analyze` / `recompress` reque
 -/
 import Preflate.Model.Params
 import Preflate.Model.HuffCalc
+import Preflate.Model.HuffCalcT
 import Preflate.Gen.Consts
 namespace Preflate.Chains
 open Preflate
@@ -247,7 +248,12 @@ def pred (p : Params) : Pred Chain where
   repredictTok := repredictTok p
   candidates plain s := if p.hashAlg = 0 then [] else iterate p plain s.h s.pos 0
   update plain h pos len := policyUpdate p plain h pos len
-  -- the Rust function returns Vec<u8>: entries are below 256 by typing
-  calcBitLengths := fun freq maxBits => (HuffCalc.calcBitLengths freq maxBits).map (· % 256)
+  -- the total transcription (Model/HuffCalcT.lean; `Proofs/HuffCalcT.lean`: no panic, no exhausted
+  -- bound, entries ≤ maxBits on the callers' domain). The Rust function returns Vec<u8>: entries are
+  -- below 256 by typing. A panic outcome (unreachable for the callers) has no list to return.
+  calcBitLengths := fun freq maxBits =>
+    match HuffCalcT.calcBitLengths freq maxBits with
+    | .ok l => l.map (· % 256)
+    | .error _ => []
 
 end Preflate.Chains
